@@ -236,10 +236,50 @@ impl World {
         let st = ContinuityStore::new(d, self.ws.clone(), log).unwrap();
         (sc, st)
     }
+    /// a third store over a copy of truth + only the messages+runs caches (sidecar, ordinal / seek / message-id
+    /// indexes) as they are now: the planner counts and resolves the messages through the caches, finds neither the
+    /// checkpoint sidecar nor a full sidecar to rebuild it from, and resolves the checkpoint of the first cut point
+    /// it examines on its truth-log fallback (the replay then rebuilds the caches for the following ones)
+    fn mr_only_copy(&self) -> (Scratch, ContinuityStore) {
+        let sc = Scratch::new("c09m");
+        let d = sc.path().join("data");
+        let cs = d.join("continuity_streams");
+        std::fs::create_dir_all(&cs).unwrap();
+        std::fs::copy(self.data.join("events.jsonl"), d.join("events.jsonl")).unwrap();
+        std::fs::create_dir_all(d.join("continuities")).unwrap();
+        let _ = std::fs::copy(self.data.join("continuities").join("index.json"), d.join("continuities").join("index.json"));
+        let prefix = format!("{}.mr.", self.tid);
+        if let Ok(rd) = std::fs::read_dir(self.data.join("continuity_streams")) {
+            for e in rd.flatten() {
+                let name = e.file_name().to_string_lossy().to_string();
+                if name.starts_with(&prefix) {
+                    let _ = std::fs::copy(e.path(), cs.join(&name));
+                }
+            }
+        }
+        let log = Arc::new(EventLog::new(d.join("events.jsonl")).unwrap());
+        let st = ContinuityStore::new(d, self.ws.clone(), log).unwrap();
+        (sc, st)
+    }
+    /// the stores the read-only queries are repeated on: (what is lost, store)
+    fn copies(&self) -> Vec<(&'static str, Scratch, ContinuityStore)> {
+        let (a, b) = self.truth_copy();
+        let (c, d) = self.mr_only_copy();
+        vec![("without caches", a, b), ("with only the messages+runs caches", c, d)]
+    }
 }
 
 // ------------------------------------------------------------------ cache faults
-const FAULT_NAMES: [&str; 8] = ["ord_drop_last_record", "ord_drop_last_2_records", "ord_delete", "ord_truncate_mid_record", "comp_idx_delete", "mr_sidecar_delete", "comp_sidecar_delete", "all_caches_delete"];
+const FAULT_NAMES: [&str; 10] = [
+    "ord_drop_last_record", "ord_drop_last_2_records", "ord_delete", "ord_truncate_mid_record", "comp_idx_delete", "mr_sidecar_delete", "comp_sidecar_delete", "all_caches_delete",
+    "full_and_comp_sidecars_and_comp_idx_delete", "full_and_comp_sidecars_delete",
+];
+/// faults after which `compaction_cut_points_v1` resolves the checkpoint of the FIRST cut point it examines on its
+/// truth-log fallback (messages+runs sidecar and ordinal index still answer, the checkpoint sidecar is gone and cannot
+/// be rebuilt from the full sidecar); that replay rebuilds the caches, so the fault is re-applied before every query
+fn fault_forces_truth_checkpoint_path(kind: u64) -> bool {
+    kind == 8 || kind == 9
+}
 /// Damage that a crash or a lost file can leave in the rebuildable caches and that the code recognises today
 /// (a lagging / torn / missing file).  States that are open C04 findings (a well-formed derived file that is not
 /// the projection: S4 / S4b / S4c / S4d) are not generated: the faults are applied only at the end of a case,
@@ -271,6 +311,15 @@ fn apply_fault(w: &World, kind: u64) {
             let _ = std::fs::remove_file(f(".mr.v1.jsonl"));
         }
         6 => {
+            let _ = std::fs::remove_file(f(".comp.v1.jsonl"));
+        }
+        8 => {
+            let _ = std::fs::remove_file(f(".jsonl"));
+            let _ = std::fs::remove_file(f(".comp.v1.jsonl"));
+            let _ = std::fs::remove_file(f(".comp.idx.v1.jsonl"));
+        }
+        9 => {
+            let _ = std::fs::remove_file(f(".jsonl"));
             let _ = std::fs::remove_file(f(".comp.v1.jsonl"));
         }
         _ => {
@@ -608,7 +657,7 @@ fn run_case(ops: &[Op], check_truth_path: bool) -> Run {
             }
             Op::Fault(k) => {
                 apply_fault(&w, *k);
-                stats.push(format!("fault={}", FAULT_NAMES[(*k as usize).min(7)]));
+                stats.push(format!("fault={}", FAULT_NAMES[if (*k as usize) < FAULT_NAMES.len() { *k as usize } else { 7 }]));
             }
             Op::Cut { stride, limit } => {
                 let req = CompactionCutPointsV1Request { stride_messages: *stride, limit: limit.map(|l| l as u32) };
@@ -638,19 +687,23 @@ fn run_case(ops: &[Op], check_truth_path: bool) -> Run {
                             let n_msgs = w.events.iter().filter(|e| matches!(e.kind, EventKind::ContinuityMessageAppended { .. })).count() as u64;
                             if key(&want) != key(&got) || r.message_count != n_msgs {
                                 viol.push(Viol { what: format!("cut points {:?} differ from the k*stride-th messages {:?}", key(&got), key(&want)), class: "cut_points_wrong".into() });
-                            } else if want != got {
+                            } else if want.iter().map(|c| c.done).ne(got.iter().map(|c| c.done)) {
                                 viol.push(Viol { what: format!("already_checkpointed / latest_checkpoint_id {:?} differ from the checkpoint frames {:?}", got, want), class: "checkpointed_flag_wrong".into() });
+                            } else if want != got {
+                                let show = |v: &Vec<RefCut>| v.iter().map(|c| (c.ord, c.ck.as_ref().map(|x| format!("frame {}", w.frame_no(x))))).collect::<Vec<_>>();
+                                viol.push(Viol { what: format!("latest_checkpoint_id (ordinal, frame) {:?} is not the LATEST checkpoint frame of the cut point, which is {:?}", show(&got), show(&want)), class: "latest_checkpoint_id_not_latest_frame".into() });
                             }
                         }
                     }
                 }
                 if check_truth_path {
-                    let (_sc, t) = w.truth_copy();
-                    let r2 = t.compaction_cut_points_v1(&w.tid, req);
-                    let a = r.as_ref().map(|x| serde_json::to_value(x).unwrap()).map_err(|e| e.clone());
-                    let b = r2.as_ref().map(|x| serde_json::to_value(x).unwrap()).map_err(|e| e.clone());
-                    if a != b {
-                        viol.push(Viol { what: format!("cut_points with caches {a:?} != without caches {b:?}"), class: "fast_truth_differ".into() });
+                    for (lost, _sc, t) in w.copies() {
+                        let r2 = t.compaction_cut_points_v1(&w.tid, req.clone());
+                        let a = r.as_ref().map(|x| serde_json::to_value(x).unwrap()).map_err(|e| e.clone());
+                        let b = r2.as_ref().map(|x| serde_json::to_value(x).unwrap()).map_err(|e| e.clone());
+                        if a != b {
+                            viol.push(Viol { what: format!("cut_points with caches {a:?} != {lost} {b:?}"), class: "fast_truth_differ".into() });
+                        }
                     }
                 }
             }
@@ -705,12 +758,13 @@ fn run_case(ops: &[Op], check_truth_path: bool) -> Run {
                     }
                 }
                 if check_truth_path {
-                    let (_sc, t) = w.truth_copy();
-                    let r2 = t.compaction_status_v1(&w.tid, req);
-                    let a = r.as_ref().map(|x| serde_json::to_value(x).unwrap()).map_err(|e| e.clone());
-                    let b = r2.as_ref().map(|x| serde_json::to_value(x).unwrap()).map_err(|e| e.clone());
-                    if a != b {
-                        viol.push(Viol { what: format!("status with caches {a:?} != without caches {b:?}"), class: "fast_truth_differ".into() });
+                    for (lost, _sc, t) in w.copies() {
+                        let r2 = t.compaction_status_v1(&w.tid, req.clone());
+                        let a = r.as_ref().map(|x| serde_json::to_value(x).unwrap()).map_err(|e| e.clone());
+                        let b = r2.as_ref().map(|x| serde_json::to_value(x).unwrap()).map_err(|e| e.clone());
+                        if a != b {
+                            viol.push(Viol { what: format!("status with caches {a:?} != {lost} {b:?}"), class: "fast_truth_differ".into() });
+                        }
                     }
                 }
             }
@@ -753,13 +807,14 @@ fn run_case(ops: &[Op], check_truth_path: bool) -> Run {
                 let before = w.events.clone();
                 let req = CompactionAutoV1Request { stride_messages: *stride, max_new_checkpoints: maxnew.map(|m| m as u32), dry_run: *dry, actor_id: "actor0".into(), origin: "test".into() };
                 if check_truth_path && stride != &Some(0) {
-                    let (_sc, t) = w.truth_copy();
                     let mut rq = req.clone();
                     rq.dry_run = Some(true);
-                    let a = t.compaction_auto_v1(&w.tid, rq.clone()).map(|x| serde_json::to_value(x.planned).unwrap());
-                    let b = w.store.compaction_auto_v1(&w.tid, rq).map(|x| serde_json::to_value(x.planned).unwrap());
-                    if a != b {
-                        viol.push(Viol { what: format!("auto plan with caches {b:?} != without caches {a:?}"), class: "fast_truth_differ".into() });
+                    let b = w.store.compaction_auto_v1(&w.tid, rq.clone()).map(|x| serde_json::to_value(x.planned).unwrap());
+                    for (lost, _sc, t) in w.copies() {
+                        let a = t.compaction_auto_v1(&w.tid, rq.clone()).map(|x| serde_json::to_value(x.planned).unwrap());
+                        if a != b {
+                            viol.push(Viol { what: format!("auto plan with caches {b:?} != {lost} {a:?}"), class: "fast_truth_differ".into() });
+                        }
                     }
                 }
                 let r = w.store.compaction_auto_v1(&w.tid, req);
@@ -901,13 +956,20 @@ fn long_checkpoint_history(n_after: usize) -> Vec<Viol> {
     }
     let store = ContinuityStore::new(data.clone(), ws, log.clone()).unwrap();
     let events = log.replay_stream(StreamKind::Continuity, &tid).unwrap();
-    let want: Vec<(u64, bool)> = ref_cut_points(&events, 2, 2).iter().map(|c| (c.ord, c.done)).collect();
+    let reference = ref_cut_points(&events, 2, 2);
+    let want: Vec<(u64, bool)> = reference.iter().map(|c| (c.ord, c.done)).collect();
+    let want_ids: Vec<Option<String>> = reference.iter().map(|c| c.ck.clone()).collect();
     let mut out = vec![];
     for call in 0..2 {
         let r = store.compaction_cut_points_v1(&tid, CompactionCutPointsV1Request { stride_messages: Some(2), limit: Some(2) });
-        let got: Vec<(u64, bool)> = r.map(|r| r.cut_points.iter().map(|c| (c.target_message_ordinal, c.already_checkpointed)).collect()).unwrap_or_default();
+        let got: Vec<(u64, bool)> = r.as_ref().map(|r| r.cut_points.iter().map(|c| (c.target_message_ordinal, c.already_checkpointed)).collect()).unwrap_or_default();
+        let got_ids: Vec<Option<String>> = r.as_ref().map(|r| r.cut_points.iter().map(|c| c.latest_checkpoint_id.clone()).collect()).unwrap_or_default();
         if got != want {
             out.push(Viol { what: format!("thread with {} checkpoint frames, cut_points call #{call}: (ordinal, already_checkpointed) = {got:?}, checkpoint frames say {want:?}", n_after + 1), class: "checkpointed_flag_wrong_beyond_scan_window".into() });
+        } else if got_ids != want_ids {
+            // n_after frames for the same cut point: the last of them in stream order is the checkpoint of that cut,
+            // also when the answer comes from the truth log (> 10 000 frames: the bounded sidecar scan refuses)
+            out.push(Viol { what: format!("thread with {n_after} checkpoint frames for the same cut point, cut_points call #{call}: latest_checkpoint_id = {got_ids:?}, the latest frames in stream order are {want_ids:?}"), class: "latest_checkpoint_id_not_latest_frame".into() });
         }
     }
     out
@@ -1243,12 +1305,13 @@ fn run_conc(prefix: &[Op], calls: &[Spec], seed: u64, fixed: Option<&[u64]>) -> 
                 }
             }
         }
-        let (_sc, t) = w.truth_copy();
-        let r2 = t.compaction_cut_points_v1(&w.tid, req);
-        let a = r.as_ref().map(|x| serde_json::to_value(x).unwrap()).map_err(|e| e.clone());
-        let b = r2.as_ref().map(|x| serde_json::to_value(x).unwrap()).map_err(|e| e.clone());
-        if a != b {
-            viol.push(Viol { what: format!("after concurrent calls: cut_points with caches {a:?} != without caches {b:?}"), class: "fast_truth_differ".into() });
+        for (lost, _sc, t) in w.copies() {
+            let r2 = t.compaction_cut_points_v1(&w.tid, req.clone());
+            let a = r.as_ref().map(|x| serde_json::to_value(x).unwrap()).map_err(|e| e.clone());
+            let b = r2.as_ref().map(|x| serde_json::to_value(x).unwrap()).map_err(|e| e.clone());
+            if a != b {
+                viol.push(Viol { what: format!("after concurrent calls: cut_points with caches {a:?} != {lost} {b:?}"), class: "fast_truth_differ".into() });
+            }
         }
     }
     obs.push(w.events.len() as u64);
@@ -1369,17 +1432,58 @@ fn gen_case(r: &mut Rng, long: bool) -> Vec<Op> {
         };
         ops.push(op);
     }
-    if r.below(3) == 0 {
+    let st = if pref == 0 { 2 } else { pref };
+    let fault = if r.below(3) == 0 { Some(r.below(FAULT_NAMES.len() as u64)) } else { None };
+    let dup = match fault {
+        Some(k) if fault_forces_truth_checkpoint_path(k) => r.below(8) != 0,
+        _ => r.below(4) == 0,
+    };
+    if dup {
+        // several checkpoint frames for the SAME (newest) cut point of stride `st`: the latest frame must win on
+        // every path.  A manual checkpoint repeated, a manual one after an auto one, one re-using the summary
+        // artifact of its predecessor; then the query that has to name the last of them.
+        ops.extend(dup_block(r, st, arts));
+        ops.push(Op::Cut { stride: Some(st), limit: Some(*r.pick(&[1u64, 2, 32])) });
+    }
+    if let Some(k) = fault {
         // terminal cache-fault block: damage the caches, then only read-only queries (dry runs append nothing)
-        let st = if pref == 0 { 2 } else { pref };
-        ops.push(Op::Fault(r.below(8)));
-        ops.push(Op::Cut { stride: Some(st), limit: Some(32) });
-        ops.push(Op::Status { stride: Some(st) });
-        ops.push(Op::Auto { stride: Some(st), maxnew: Some(32), dry: Some(true) });
-        ops.push(Op::Sched { stride: Some(st), maxnew: Some(2), block: Some(true), exec: Some(true), dry: Some(true) });
-        ops.push(Op::Cut { stride: Some(1), limit: Some(3) });
+        let again = fault_forces_truth_checkpoint_path(k);
+        let queries = [
+            Op::Cut { stride: Some(st), limit: Some(32) },
+            Op::Status { stride: Some(st) },
+            Op::Auto { stride: Some(st), maxnew: Some(32), dry: Some(true) },
+            Op::Sched { stride: Some(st), maxnew: Some(2), block: Some(true), exec: Some(true), dry: Some(true) },
+            Op::Cut { stride: Some(1), limit: Some(3) },
+        ];
+        for (i, q) in queries.into_iter().enumerate() {
+            if i == 0 || again {
+                ops.push(Op::Fault(k));
+            }
+            ops.push(q);
+        }
     }
     ops
+}
+
+/// 2..4 checkpoint frames at the newest `st`-th message (nothing is appended when the thread is still shorter than
+/// `st` messages: every op is then refused or a no-op, in the code and in the model alike)
+fn dup_block(r: &mut Rng, st: u64, arts: u64) -> Vec<Op> {
+    let manual = |md: Option<u64>, art: Option<u64>| Op::Manual { md, art, to_mid: None, to_seq: None, stride: Some(st) };
+    let mut v = vec![];
+    match r.below(4) {
+        0 => v.push(Op::Auto { stride: Some(st), maxnew: Some(1), dry: None }),
+        1 => v.push(Op::Sched { stride: Some(st), maxnew: Some(1), block: Some(false), exec: Some(true), dry: None }),
+        _ => v.push(manual(Some(0), None)),
+    }
+    for _ in 0..r.range(1, 4) {
+        v.push(match r.below(5) {
+            // the summary artifact of an earlier checkpoint: accepted exactly when its coverage ends at this cut
+            0 => manual(None, Some(r.range(1, arts + 3))),
+            1 => manual(Some(1), None),
+            _ => manual(Some(0), None),
+        });
+    }
+    v
 }
 
 fn corpus() -> Vec<Vec<Op>> {
@@ -1396,6 +1500,12 @@ fn corpus() -> Vec<Vec<Op>> {
         vec![m(0, 1), m(1, 2), Op::Sched { stride: Some(1), maxnew: Some(1), block: Some(true), exec: Some(false), dry: None },
              Op::Sched { stride: Some(1), maxnew: Some(1), block: Some(true), exec: Some(true), dry: None },
              Op::Sched { stride: Some(1), maxnew: Some(2), block: Some(false), exec: Some(true), dry: None }, Op::Status { stride: Some(1) }],
+        // the newest cut point checkpointed twice, then the full sidecar and the checkpoint sidecar are lost: the
+        // planner answers the first cut point from the truth log and must still name the LATER frame (seeded C09-4)
+        vec![m(0, 1), m(1, 2), m(0, 3), m(1, 4), Op::Manual { md: Some(0), art: None, to_mid: None, to_seq: Some(4), stride: None },
+             Op::Manual { md: Some(0), art: None, to_mid: None, to_seq: Some(4), stride: None }, Op::Cut { stride: Some(2), limit: Some(8) },
+             Op::Fault(8), Op::Cut { stride: Some(2), limit: Some(8) }, Op::Fault(9), Op::Status { stride: Some(2) },
+             Op::Fault(8), Op::Auto { stride: Some(2), maxnew: Some(32), dry: Some(true) }],
         // legacy placeholder base and unreadable base
         vec![m(0, 1), m(1, 2), m(0, 3), m(1, 4), Op::Manual { md: Some(1), art: None, to_mid: None, to_seq: None, stride: Some(2) }, m(0, 5), m(0, 6),
              Op::Auto { stride: Some(2), maxnew: Some(1), dry: None }, Op::DropArt(2), m(1, 7), m(1, 8), Op::Auto { stride: Some(2), maxnew: Some(1), dry: None }],
@@ -1475,7 +1585,7 @@ fn main() {
                 }
                 if nontrivial(&Run { obs: vec![], texts: vec![], viol: vec![], n_ckpt: r1.n_ckpt, n_cut: r1.n_cut, stats: vec![] }) {
                     distinct.add(&format!("{ops:?}"));
-                    if res.samples.len() < 2 && ops.len() < 14 && i >= 4 {
+                    if res.samples.len() < 2 && ops.len() < 14 && i >= 5 {
                         res.samples.push(case_json(ops));
                     }
                 }
